@@ -5,7 +5,11 @@ from vlib import core, hdrspec as G
 ID = "C05"
 LEAN_MODULES = ["LhasaV.Props.C05"]
 VH_FEATURES = ["header"]
-THEOREMS = {}
+THEOREMS = {
+    "header_roundtrip": "FULL STATEMENT: every well-formed typed field assignment of levels 0-3, any mktime, any following data",
+    "header_roundtrip_ok": "full", "layout_matches_source": "full (Gen): spec layout constants = compiled source",
+    "level1_compressed_size": "full",
+}
 TRUSTED = ["spec LhasaV.Spec.HeaderEnc (levels 0-3 layouts as an encoder of typed fields; typed meaning of each extended header and "
            "level-0 area; constants stated independently of the source) and Header.postProcess as the meaning of the normalisation "
            "stage (its pieces are characterised by C11's and this property's lemmas)",
@@ -62,7 +66,11 @@ def signature(case, c_out, why):
     return "header-fields-differ"
 
 
-LEVEL_TEXT = ("Lean theorems about the header parser model for typed field assignments (see evidence.theorems); model tied to the C by a "
+LEVEL_TEXT = ("Kernel-checked round-trip theorem at full strength: for every well-formed typed field assignment of level 0-3 (any values, "
+              "any typed extended headers in any order incl. duplicates/unknown/too-short/common-CRC, level-0 areas, level-1 padding) and "
+              "any following data, the parser model returns exactly normalise(fields) and leaves the member data. Model tied to the C by a "
               "three-way differential run: C parse(encode f) = model parse(encode f) = normalise f on generated typed fields.")
-LEVEL_NOTE = "see DESIGN.md section 5, C05"
+LEVEL_NOTE = ("Trusted: Lean kernel; axioms propext, Classical.choice, Quot.sound; Spec.HeaderEnc as the meaning of the layouts; "
+              "Header.postProcess as the definition of the normalisation stage; the hand parser model (differentially validated); "
+              "mktime as a parameter (timegm under TZ=UTC in the harness).")
 TECHNIQUE = "Lean 4 proof (typed-field round trip through the parser model) + three-way differential correspondence"
